@@ -1129,7 +1129,7 @@ package sarama
 //@   ensures[from_start] forall k :: 0 <= k && k < len(msgs) ==> msgs[k].Offset >= old(child.offset)
 //@   ensures[strictly_increasing] forall a, b :: 0 <= a && a < b && b < len(msgs) ==> msgs[a].Offset < msgs[b].Offset
 //@   ensures[advance] child.offset > old(child.offset) && forall k :: 0 <= k && k < len(msgs) ==> msgs[k].Offset < child.offset
-//@   ensures[fresh_messages] forall k :: 0 <= k && k < len(msgs) ==> msgs[k].chained == 0 && msgs[k] != nil && fresh(msgs[k])
+//@   ensures[fresh_messages] forall k :: 0 <= k && k < len(msgs) ==> msgs[k].chained == 0 && allocated(msgs[k]) && fresh(msgs[k])
 //@   ensures[unaltered] forall k :: 0 <= k && k < len(msgs) ==> exists j :: 0 <= j && j < len(batch.Records) && msgs[k].Offset == batch.FirstOffset + batch.Records[j].OffsetDelta && msgs[k].Key == batch.Records[j].Key && msgs[k].Value == batch.Records[j].Value && msgs[k].Headers == batch.Records[j].Headers && msgs[k].Topic == child.topic && msgs[k].Partition == child.partition
 //@   loop 0: invariant child.offset >= old(child.offset) && child.offset < 4611686018427387904 + 4294967296 + 1
 //@   loop 0: invariant len(messages) > 0 ==> child.offset == messages[len(messages)-1].Offset + 1
@@ -1140,3 +1140,54 @@ package sarama
 //@   loop 0: invariant forall k :: 0 <= k && k < len(messages) ==> messages[k].chained == 0
 //@   loop 0: invariant forall k :: 0 <= k && k < len(messages) ==> exists j :: 0 <= j && j < len(batch.Records) && messages[k].Offset == batch.FirstOffset + batch.Records[j].OffsetDelta && messages[k].Key == batch.Records[j].Key && messages[k].Value == batch.Records[j].Value && messages[k].Headers == batch.Records[j].Headers && messages[k].Topic == child.topic && messages[k].Partition == child.partition
 //@   modifies child.offset
+
+//@ func (msb *MessageBlock) Messages() props C03
+//@   returns r
+//@   ensures[wrapped] msb.Msg.Set != nil ==> r == msb.Msg.Set.Messages
+//@   ensures[single] msb.Msg.Set == nil ==> len(r) == 1 && r[0] == msb
+//@   modifies nothing
+
+//@ func (child *partitionConsumer) parseMessages(msgSet) props C03
+//@   returns msgs, err
+//@   requires 0 <= child.offset && child.offset < 4611686018427387904
+//@   requires forall k :: 0 <= k && k < len(msgSet.Messages) ==> msgSet.Messages[k] != nil && msgSet.Messages[k].Msg != nil && 0 <= msgSet.Messages[k].Offset && msgSet.Messages[k].Offset < 4611686018427387904
+//@   requires forall k, q :: 0 <= k && k < len(msgSet.Messages) && msgSet.Messages[k].Msg.Set != nil && 0 <= q && q < len(msgSet.Messages[k].Msg.Set.Messages) ==> msgSet.Messages[k].Msg.Set.Messages[q] != nil && msgSet.Messages[k].Msg.Set.Messages[q].Msg != nil && 0 <= msgSet.Messages[k].Msg.Set.Messages[q].Offset && msgSet.Messages[k].Msg.Set.Messages[q].Offset < 4611686018427387904
+//@   ensures[no_error] err == nil
+//@   ensures[from_start] forall k :: 0 <= k && k < len(msgs) ==> msgs[k].Offset >= old(child.offset)
+//@   ensures[strictly_increasing] forall a, b :: 0 <= a && a < b && b < len(msgs) ==> msgs[a].Offset < msgs[b].Offset
+//@   ensures[advance] child.offset > old(child.offset) && forall k :: 0 <= k && k < len(msgs) ==> msgs[k].Offset < child.offset
+//@   ensures[fresh_messages] forall k :: 0 <= k && k < len(msgs) ==> msgs[k].chained == 0 && allocated(msgs[k]) && fresh(msgs[k])
+//@   loop 0: invariant child.offset >= old(child.offset) && child.offset <= 13835058055282163712
+//@   loop 0: invariant len(messages) > 0 ==> child.offset == messages[len(messages)-1].Offset + 1
+//@   loop 0: invariant len(messages) == 0 ==> child.offset == old(child.offset)
+//@   loop 0: invariant forall k :: 0 <= k && k < len(messages) ==> messages[k].Offset >= old(child.offset) && messages[k].Offset < child.offset
+//@   loop 0: invariant forall a, b :: 0 <= a && a < b && b < len(messages) ==> messages[a].Offset < messages[b].Offset
+//@   loop 0: invariant forall k :: 0 <= k && k < len(messages) ==> allocated(messages[k]) && fresh(messages[k])
+//@   loop 0: invariant forall k :: 0 <= k && k < len(messages) ==> messages[k].chained == 0
+//@   loop 1: invariant child.offset >= old(child.offset) && child.offset <= 13835058055282163712
+//@   loop 1: invariant len(messages) > 0 ==> child.offset == messages[len(messages)-1].Offset + 1
+//@   loop 1: invariant len(messages) == 0 ==> child.offset == old(child.offset)
+//@   loop 1: invariant forall k :: 0 <= k && k < len(messages) ==> messages[k].Offset >= old(child.offset) && messages[k].Offset < child.offset
+//@   loop 1: invariant forall a, b :: 0 <= a && a < b && b < len(messages) ==> messages[a].Offset < messages[b].Offset
+//@   loop 1: invariant forall k :: 0 <= k && k < len(messages) ==> allocated(messages[k]) && fresh(messages[k])
+//@   loop 1: invariant forall k :: 0 <= k && k < len(messages) ==> messages[k].chained == 0
+//@   modifies child.offset
+
+// parseResponse (C11): what is appended to the delivered messages. append#0 is the legacy-set append,
+// append#1 the record-batch append.
+//@ func (child *partitionConsumer) parseResponse(response) props C11 C03
+//@   returns msgs, err
+//@   per_return
+//@   requires 0 <= child.offset && child.offset < 4611686018427387904
+//@   callsite append#1: requires[no_control] !isControl
+//@   callsite append#1: requires[committed_only] child.conf.Consumer.IsolationLevel == ReadCommitted && records.RecordBatch.IsTransactional ==> !haskey(abortedProducerIDs, records.RecordBatch.ProducerID)
+//@   ensures[strictly_increasing @C03] err == nil ==> forall a, b :: 0 <= a && a < b && b < len(msgs) ==> msgs[a].Offset < msgs[b].Offset
+//@   ensures[fresh_messages @C18] err == nil ==> forall k :: 0 <= k && k < len(msgs) ==> msgs[k].chained == 0 && msgs[k] != nil
+//@   ensures[offset_monotone @C03] child.offset >= old(child.offset)
+//@   ensures[delivered_below_offset @C03] err == nil ==> forall k :: 0 <= k && k < len(msgs) ==> msgs[k].Offset >= old(child.offset) && msgs[k].Offset < child.offset
+//@   loop 0: invariant child.offset >= old(child.offset)
+//@   loop 0: invariant forall k :: 0 <= k && k < len(messages) ==> messages[k].Offset >= old(child.offset) && messages[k].Offset < child.offset
+//@   loop 0: invariant forall a, b :: 0 <= a && a < b && b < len(messages) ==> messages[a].Offset < messages[b].Offset
+//@   loop 0: invariant forall k :: 0 <= k && k < len(messages) ==> allocated(messages[k])
+//@   loop 0: invariant forall k :: 0 <= k && k < len(messages) ==> messages[k].chained == 0
+//@   nosafety
